@@ -528,10 +528,11 @@ def angdiff(a, b=None):
         >>> angdiff(3 * pi)
 
     """
+    a = np.asarray(a)
     if b is None:
         return np.mod(a + math.pi, 2 * math.pi) - math.pi
     else:
-        return np.mod(a - b + math.pi, 2 * math.pi) - math.pi
+        return np.mod(a - np.asarray(b) + math.pi, 2 * math.pi) - math.pi
 
 def removesmall(v, tol=100):
     """
@@ -556,6 +557,7 @@ def removesmall(v, tol=100):
         >>> print(a[3])
 
     """
+    v = np.asarray(v)
     return np.where(abs(v) < tol * _eps, 0, v)
 
 
